@@ -27,19 +27,23 @@ Definition obs_plain (c : ctx) : sx :=
                        | Some (Some t) => sx_nat (rid t)
                        end) (seq 0 (q_depth c + 2))) ].
 
-Definition obs_pair (c o : ctx) : sx :=
-  L [ sx_bool (q_is_descendant_of c (rid (c_self o)));
-      sx_bool (q_is_ancestor_of o (rid (c_self c)));
-      sx_on (q_common_ancestor c o) ].
+(* ordered pairs, compact: for the node with context c, the list of nodes it is a descendant of, the list of nodes it
+   is an ancestor of, and for every node o (pre-order) the nearest common ancestor (0 = None; ids are >= 1) *)
+Definition sx_cid (o : option rt) : sx := match o with Some t => sx_nat (rid t) | None => A 0%Z end.
+
+Definition obs_pairs (cs : list ctx) (c : ctx) : sx :=
+  L [ sx_nodes (map c_self (filter (fun o => q_is_descendant_of c (rid (c_self o))) cs));
+      sx_nodes (map c_self (filter (fun o => q_is_ancestor_of o (rid (c_self c))) cs));
+      L (map (fun o => sx_cid (q_common_ancestor c o)) cs) ].
 
 Definition run10 (f : forest) : sx :=
-  let cs := map (fun t => locate_f (rid t) f) (pre_f f) in
-  L [ L (map (fun oc => match oc with None => A (-1)%Z | Some c => obs_plain c end) cs);
-      L (map (fun oc => L (map (fun oo => match oc, oo with
-                                          | Some c, Some o => obs_pair c o
-                                          | _, _ => A (-1)%Z
-                                          end) cs)) cs);
-      sx_nat (tree_height f) ].
+  let ocs := map (fun t => locate_f (rid t) f) (pre_f f) in
+  let cs := flat_map (fun oc => match oc with Some c => [c] | None => [] end) ocs in
+  L [ L (map (fun oc => match oc with None => A (-1)%Z | Some c => obs_plain c end) ocs);
+      L (map (fun oc => match oc with None => A (-1)%Z | Some c => obs_pairs cs c end) ocs);
+      sx_nat (tree_height f);
+      L [ sx_nodes (tr_children f); sx_on (tr_first_child f); sx_on (tr_last_child f); sx_nat (tr_count f);
+          sx_nat (tr_count_desc f false); sx_nat (tr_count_desc f true) ] ].
 
 (* ---- C15 ---- *)
 Definition obs_typed_ch (t : rt) (k : option text) : sx :=
